@@ -255,11 +255,13 @@ PROPS = {
         "quick": {"runs": [{"test": "^TestC18$", "shards": 12, "checks": 60, "timeout": 600},
                            {"test": "^TestC18Burst$", "shards": 4, "checks": 40, "timeout": 600},
                            {"test": "^TestC18LeadingNewline$", "shards": 1, "checks": 20, "timeout": 300},
-                           {"test": "^TestC18KeyBlockScalar$", "shards": 1, "checks": 20, "timeout": 300}]},
+                           {"test": "^TestC18KeyBlockScalar$", "shards": 1, "checks": 20, "timeout": 300},
+                           {"test": "^TestC18DeepPath$", "shards": 2, "checks": 40, "timeout": 600}]},
         "thorough": {"runs": [{"test": "^TestC18$", "shards": 12, "checks": 2500, "timeout": 3400},
                               {"test": "^TestC18Burst$", "shards": 4, "checks": 2500, "timeout": 3400},
                               {"test": "^TestC18LeadingNewline$", "shards": 1, "checks": 200, "timeout": 600},
-                              {"test": "^TestC18KeyBlockScalar$", "shards": 1, "checks": 200, "timeout": 600}]},
+                              {"test": "^TestC18KeyBlockScalar$", "shards": 1, "checks": 200, "timeout": 600},
+                              {"test": "^TestC18DeepPath$", "shards": 2, "checks": 300, "timeout": 1800}]},
     },
     "C12": {
         "title": "Chat reaches exactly its audience",
@@ -479,7 +481,7 @@ _LATER = {
     "C15": "passwords of 73 / 100 / 255 bytes (bcrypt's limit is 72), names of 300 / 500 / 2000 bytes, new-user over a file that another login's record occupies; no two accounts may share a stored password hash (also the password-less ones)",
     "C16": "TestC16Wire: creation of shadow logins (./u, u/., U) next to an existing one, set-user spelled in another case, and the account listing fetched before and after an edit must show the edit",
     "C17": "a protected account; kicks aimed at a user who is leaving at that instant; reloads of the ban file racing a ban (the in-memory answer is compared too); TestC17Net (child process, production accept loop): three clients from three loopback addresses, one is kicked with a ban: only its address is refused afterwards, the others reconnect",
-    "C18": "stale paths whose last component is missing; the path field absent / empty / zero-count / truncated; delete-item followed by listings of the former sub-paths; posts after deletions keep their parent",
+    "C18": "stale paths whose last component is missing; the path field absent / empty / zero-count / truncated; delete-item followed by listings of the former sub-paths; posts after deletions keep their parent; TestC18DeepPath: bundles nested 1-40 deep with names of 1-255 bytes (encoded path up to ~5.3 KiB), a category with an article and a reply at the bottom, then nothing / reload / restart: every level lists exactly its child, the articles are listed and fetched, deleting the innermost bundle removes exactly it (non-trivial = encoded path longer than 512 bytes)",
     "C19": "reloads that fail (unreadable file) and posts that fail (unwritable file; the post may or may not count, nothing else may change), reloads during rounds, operator trims of the board between reads, the date stamp of each post compared with the fake clock (minute of day drawn)",
     "C20": "accounts in the legacy storage form are migrated at start-up (privileges compared over the defined bits); after every kill point the touched accounts are also deleted and, for a crashed rename, the new login is created afresh: both must be acknowledged and no other account may vanish; TestC20Acked also compares the in-memory category with the news file at each acknowledgement and includes news replies",
 }
